@@ -101,7 +101,7 @@ impl Base {
         from_be(&self.r) % (&r9::params().n - 2u32) + 1u32
     }
     fn id(&self) -> Vec<u8> {
-        expand_bytes(self.id_seed, self.id_len)
+        identity(self.id_seed, self.id_len)
     }
     fn msg(&self) -> Vec<u8> {
         expand_bytes(self.msg_seed, self.msg_len.clamp(1, 255))
@@ -146,6 +146,8 @@ pub enum Tamper {
     Truncate(u16),
     Extend(u16, u8),
     OtherIdentity,
+    /// the identity with the case of its ASCII letters swapped (only when it has letters): another identity
+    IdentityCase,
     /// C1 = (x, y+1): off the curve; C3/C2 left alone
     C1Nudged,
     /// C1 off the curve, with C2/C3 forged consistently from the *library's* pairing value e(C1', de)
@@ -202,6 +204,13 @@ pub fn check_tamper(c: &TCase) -> CaseResult {
         }
         Tamper::OtherIdentity => {
             id.push(0x21);
+            class = "other-identity";
+        }
+        Tamper::IdentityCase => {
+            match case_variant(&id) {
+                Some(v) => id = v,
+                None => return pass(false, "identity-has-no-letters"),
+            }
             class = "other-identity";
         }
         Tamper::C1Nudged => {
@@ -419,6 +428,16 @@ pub fn run(ctx: &Ctx) {
     ctx.listed("huge_messages", "messages of 2^16-1, 2^16, 2^16+3, 100000 bytes (thorough: up to 2^20+5) with r injected: exact ciphertext, independent decryption, round trip (size thresholds, chunked or parallel paths)", move || {
         huge.iter().map(|l| Base { ke: gen::hex32(&BigUint::from(0x1234_5679u64)), ke_rel: 0, id_len: 5, id_seed: seed ^ *l as u64, msg_len: *l, msg_seed: seed.wrapping_mul(19) ^ *l as u64, r: Hex(expand_bytes(seed ^ 0x1011 ^ *l as u64, 32)) }).collect::<Vec<_>>()
     }, check_encrypt);
+    ctx.listed("structured_identities", "recipient identities as applications write them (names, mailbox-style strings in several capitalisations, non-ASCII text, blanks at the edges, the empty string): exact ciphertext with r injected, independent decryption, round trip; and decryption attempted under the identity with the case of its letters swapped, which must fail", move || {
+        let mut v = Vec::new();
+        for i in 0..structured_identities().len() {
+            let b = Base { ke: gen::hex32(&BigUint::from(0x1234_567bu64)), ke_rel: ((i % 5) as u8) << 4, id_len: STRUCTURED_ID + i, id_seed: 0, msg_len: 10 + i, msg_seed: seed ^ (0x51d0 + i as u64), r: Hex(expand_bytes(seed ^ 0x1013 ^ i as u64, 32)) };
+            v.push(TCase { base: b.clone(), tamper: Tamper::None });
+            v.push(TCase { base: Base { ke_rel: 0, ..b }, tamper: Tamper::IdentityCase });
+        }
+        v
+    }, |c: &TCase| if c.tamper == Tamper::None { check_encrypt(&c.base) } else { check_tamper(c) });
+
     ctx.listed("long_identities", "recipient identities of 122..129, 250..257, 1000, 4096, 8191, 8192, 65535, 65536, 70000 bytes with r injected: exact ciphertext, independent decryption, round trip (an identity is a byte string of any length)", move || {
         [122usize, 123, 127, 128, 129, 250, 251, 255, 256, 257, 1000, 4096, 8191, 8192, 65535, 65536, 70_000].iter().enumerate().map(|(i, l)| Base { ke: gen::hex32(&BigUint::from(0x1234_567au64)), ke_rel: ((i % 5) as u8) << 4, id_len: *l, id_seed: seed ^ (0x1d00 + i as u64), msg_len: 20 + i, msg_seed: seed.wrapping_mul(23) ^ i as u64, r: Hex(expand_bytes(seed ^ 0x1012 ^ i as u64, 32)) }).collect::<Vec<_>>()
     }, check_encrypt);
